@@ -32,16 +32,16 @@ const swaggerDoc = `{
   "tok":{"type":"oauth2","flow":"password","tokenUrl":"http://x/t","scopes":{"stc1":"","stc2":""}}},
  "paths":{
   "/a/{id}":{"post":{"operationId":"opA","security":[{"key":["ska"]}],
-    "parameters":[{"name":"id","in":"path","type":"string","required":true},{"name":"body","in":"body","required":true,"schema":{"type":"object"}}],
+    "parameters":[{"name":"id","in":"path","type":"string","required":true},{"name":"n","in":"query","type":"integer","format":"int64"},{"name":"body","in":"body","required":true,"schema":{"type":"object"}}],
     "responses":{"200":{"description":"ok"}}}},
   "/b/{id}":{"post":{"operationId":"opB",
-    "parameters":[{"name":"id","in":"path","type":"string","required":true},{"name":"body","in":"body","required":true,"schema":{"type":"object"}}],
+    "parameters":[{"name":"id","in":"path","type":"string","required":true},{"name":"n","in":"query","type":"integer","format":"int64"},{"name":"body","in":"body","required":true,"schema":{"type":"object"}}],
     "responses":{"200":{"description":"ok"}}}},
   "/d":{"post":{"operationId":"opD","security":[{"key":["skd"]}],
-    "parameters":[{"name":"body","in":"body","required":true,"schema":{"type":"object"}}],
+    "parameters":[{"name":"n","in":"query","type":"integer","format":"int64"},{"name":"body","in":"body","required":true,"schema":{"type":"object"}}],
     "responses":{"200":{"description":"ok"}}}},
   "/c/{id}":{"get":{"operationId":"opC","security":[{"key":["skc"]},{"tok":["stc1","stc2"]}],
-    "parameters":[{"name":"id","in":"path","type":"string","required":true}],
+    "parameters":[{"name":"id","in":"path","type":"string","required":true},{"name":"n","in":"query","type":"integer","format":"int64"}],
     "responses":{"200":{"description":"ok"}}}}
  }}`
 
@@ -136,6 +136,8 @@ func short(mt string) string {
 		return "json"
 	case "text/plain":
 		return "text"
+	case "application/xml":
+		return "xml"
 	case "":
 		return ""
 	}
@@ -269,6 +271,9 @@ func handler() oruntime.OperationHandler {
 			}
 		}
 		emit("handle", v...)
+		if n, ok := m["n"].(int64); ok && n == 13 {
+			return nil, errors.New(418, "teapot")
+		}
 		if _, hasID := m["id"]; !hasID {
 			return body, nil
 		}
@@ -346,6 +351,10 @@ func hook(stage string, r *http.Request, detail ...any) {
 		if rs := curReq(); rs != nil {
 			rs.boundReq = r
 		}
+		if valid, _ := detail[1].(bool); !valid {
+			emit("bound", "invalid")
+			return
+		}
 		m, _ := detail[0].(map[string]interface{})
 		id := idOf(m)
 		body := "-"
@@ -362,15 +371,24 @@ func hook(stage string, r *http.Request, detail ...any) {
 
 type reqIn struct {
 	Op, ID, Body, Ctype, Accept, Cs, Cu string
+	Rt, Q, H                            string // routing / query parameter / handler behaviour: "ok" or what is wrong
 }
 
 func (q reqIn) JSON() map[string]any {
-	return map[string]any{"op": q.Op, "id": q.ID, "body": q.Body, "ctype": q.Ctype, "accept": q.Accept, "cs": q.Cs, "cu": q.Cu}
+	return map[string]any{"op": q.Op, "id": q.ID, "body": q.Body, "ctype": q.Ctype, "accept": q.Accept, "cs": q.Cs, "cu": q.Cu,
+		"rt": q.Rt, "q": q.Q, "h": q.H}
 }
 
 func reqFrom(m map[string]any) reqIn {
 	s := func(k string) string { v, _ := m[k].(string); return v }
-	return reqIn{Op: s("op"), ID: s("id"), Body: s("body"), Ctype: s("ctype"), Accept: s("accept"), Cs: s("cs"), Cu: s("cu")}
+	ok := func(k string) string {
+		if v := s(k); v != "" {
+			return v
+		}
+		return "ok"
+	}
+	return reqIn{Op: s("op"), ID: s("id"), Body: s("body"), Ctype: s("ctype"), Accept: s("accept"), Cs: s("cs"), Cu: s("cu"),
+		Rt: ok("rt"), Q: ok("q"), H: ok("h")}
 }
 
 func (q reqIn) httpRequest() *http.Request {
@@ -392,7 +410,19 @@ func (q reqIn) httpRequest() *http.Request {
 			body = bytes.NewReader([]byte(q.Body))
 		}
 	}
-	r, err := http.NewRequest(method, "http://x"+path+id, body)
+	switch q.Rt {
+	case "404":
+		path = "/zz/"
+	case "405":
+		method = "DELETE"
+	}
+	n := "1"
+	if q.Q == "bad" {
+		n = "x"
+	} else if q.H == "err" {
+		n = "13"
+	}
+	r, err := http.NewRequest(method, "http://x"+path+id+"?n="+n, body)
 	if err != nil {
 		panic(err)
 	}
